@@ -53,30 +53,53 @@ package appencryption
 // ---- C10: decrypted system / intermediate key bytes are wiped on every exit after they exist ----
 
 //@ func (*envelopeEncryption).systemKeyFromEKR
-//@   facet C10
+//@   facet C10, C02
+//@   requires wfE(e) && ekr != nil
 //@   modifies ext_calls
+//@   ensures (err == nil) == (result != nil)
+//@   ensures err == nil ==> result.created == old(ekr.Created) && result.secret != nil
 //@   ensures [C10:kms-plaintext-wiped] forall i int :: 0 <= i && i < len(ret(DecryptKey, 1, 0)) ==> ret(DecryptKey, 1, 0)[i] == 0
 
 //@ func (*envelopeEncryption).intermediateKeyFromEKR
-//@   facet C10
-//@   modifies ext_calls
+//@   facet C10, C02
+//@   requires wfE(e) && sk != nil && ekr != nil
+//@   modifies ext_calls, ms
+//@   ensures msGrows(old(ms), ms)
+//@   ensures (err == nil) == (result != nil)
+//@   ensures err == nil ==> result.created == old(ekr.Created) && result.secret != nil
 //@   ensures [C10:ik-plaintext-wiped] forall i int :: 0 <= i && i < len(ret(WithBytesFunc, 1, 0)) ==> ret(WithBytesFunc, 1, 0)[i] == 0
 
 // ---- key caches (interface contract) ----
 
+// A loader is good for the ids its attr loaderFor says; for those, a key it returns is backed by a metastore row.
+//@ spec fn loaderFor(f ref, id string) bool
+//@ funcspec keyLoader
+//@   names meta
+//@   modifies ms, ext_calls
+//@   ensures msGrows(old(ms), ms)
+//@   ensures (err == nil) == (result != nil)
+//@   ensures err == nil ==> result.secret != nil
+//@   ensures err == nil && loaderFor(this, meta.ID) ==> ms[meta.ID][result.created]
+
 //@ iface keyCacher.GetOrLoad
 //@   names id, loader
-//@   modifies ext_calls
-//@   ensures ext_calls > old(ext_calls)
+//@   param loader keyLoader
+//@   requires [C02,C14:loader-fits-id] loaderFor(loader, id.ID)
+//@   modifies ext_calls, ms
+//@   ghost ensures ext_calls > old(ext_calls)
+//@   ensures msGrows(old(ms), ms)
 //@   ensures (err == nil) == (result != nil)
-//@   ensures err == nil ==> wfCK(result)
+//@   ensures err == nil ==> wfCK(result) && ms[id.ID][result.CryptoKey.created]
 
 //@ iface keyCacher.GetOrLoadLatest
 //@   names id, loader
-//@   modifies ext_calls
-//@   ensures ext_calls > old(ext_calls)
+//@   param loader keyLoader
+//@   requires [C02,C14:loader-fits-id] loaderFor(loader, id)
+//@   modifies ext_calls, ms
+//@   ghost ensures ext_calls > old(ext_calls)
+//@   ensures msGrows(old(ms), ms)
 //@   ensures (err == nil) == (result != nil)
-//@   ensures err == nil ==> wfCK(result)
+//@   ensures err == nil ==> wfCK(result) && ms[id][result.CryptoKey.created]
 
 //@ iface keyCacher.Close
 
@@ -120,10 +143,14 @@ package appencryption
 //@   names id
 //@   pure
 //@   ensures result == validIK(this, id)
+//@ spec fn sysid(p partition) string
+//@ spec fn ikidOf(p partition) string
 //@ iface partition.IntermediateKeyID
 //@   pure
+//@   ensures result == ikidOf(this)
 //@ iface partition.SystemKeyID
 //@   pure
+//@   ensures result == sysid(this)
 
 // every external lookup bumps ext_calls: a rejected record must be rejected before any of them
 //@ ghost var ext_calls int
@@ -142,34 +169,52 @@ package appencryption
 
 // ---- Metastore (interface contract; fault-inclusive; rows are arbitrary: any field may be nil/empty) ----
 
+//@ ghost var ms map[string]set[int]
+//@ spec fn msGrows(a map[string]set[int], b map[string]set[int]) bool = forall i string, c int :: a[i][c] ==> b[i][c]
+
+// ms = the (id, created) pairs that have a row. Rows are only ever added (by this process or any other:
+// every call includes an environment step), so `ms` only grows. Weak, fault-inclusive contract: any call may fail;
+// Store returning true means the row is there; nothing is promised when it returns false (duplicate, lost write, error).
 //@ iface Metastore.Load
 //@   names ctx, keyID, created
-//@   modifies ext_calls
+//@   modifies ext_calls, ms
 //@   ensures ext_calls == old(ext_calls) + 1
+//@   ensures msGrows(old(ms), ms)
+//@   ensures err == nil && result != nil ==> result.Created == created && ms[keyID][created]
 
 //@ iface Metastore.LoadLatest
 //@   names ctx, keyID
-//@   modifies ext_calls
+//@   modifies ext_calls, ms
 //@   ensures ext_calls == old(ext_calls) + 1
+//@   ensures msGrows(old(ms), ms)
+//@   ensures err == nil && result != nil ==> ms[keyID][result.Created]
 
 //@ iface Metastore.Store
 //@   names ctx, keyID, created, envelope
-//@   modifies ext_calls
+//@   modifies ext_calls, ms
 //@   ensures ext_calls == old(ext_calls) + 1
+//@   ensures msGrows(old(ms), ms)
+//@   ensures result ==> ms[keyID][created]
 
 // ---- C07: no input record, metastore row or loader result makes the decrypt path panic ----
 
 //@ func (*envelopeEncryption).loadIntermediateKey
-//@   facet C07
+//@   facet C07, C02, C14
 //@   safety C07
-//@   opt no-frame
 //@   requires wfE(e)
+//@   modifies ext_calls, ms
+//@   ensures [C02:ms-only-grows] msGrows(old(ms), ms)
+//@   ensures [C02:error-returns-nil] (err == nil) == (result != nil)
+//@   ensures [C02,C14:backed] err == nil ==> result.secret != nil && ms[meta.ID][result.created]
 
 //@ func (*envelopeEncryption).loadSystemKey
-//@   facet C07
+//@   facet C07, C02, C14
 //@   safety C07
-//@   opt no-frame
 //@   requires wfE(e)
+//@   modifies ext_calls, ms
+//@   ensures [C02:ms-only-grows] msGrows(old(ms), ms)
+//@   ensures [C02:error-returns-nil] (err == nil) == (result != nil)
+//@   ensures [C02,C14:backed] err == nil ==> result.secret != nil && ms[meta.ID][result.created]
 
 //@ func decryptRow
 //@   facet C07
@@ -201,3 +246,62 @@ package appencryption
 //@ iface Encryption.EncryptPayload
 //@   names ctx, data
 //@ iface Encryption.Close
+
+// ---- C02 / C14: a key is handed out only if its row is in the metastore (for every fault placement and
+// every interleaving of other processes at metastore-call granularity) ----
+
+//@ func (*envelopeEncryption).getOrLoadSystemKey$1
+//@   facet C02, C14
+//@   implements keyLoader
+//@   attr loaderFor(id string) = true
+//@   requires wfE(e)
+
+//@ func (*envelopeEncryption).loadLatestOrCreateSystemKey
+//@   facet C02, C14
+//@   requires wfE(e)
+//@   modifies ext_calls, ms
+//@   ensures [C02:ms-only-grows] msGrows(old(ms), ms)
+//@   ensures [C02:error-returns-nil] (err == nil) == (result != nil)
+//@   ensures [C02,C14:backed] err == nil ==> result.secret != nil && (id == sysid(e.partition) ==> ms[id][result.created])
+
+//@ func (*envelopeEncryption).createIntermediateKey$1
+//@   facet C02, C14
+//@   implements keyLoader
+//@   attr loaderFor(id string) = id == sysid(e.partition)
+//@   requires wfE(e)
+
+//@ func (*envelopeEncryption).createIntermediateKey
+//@   facet C02, C14
+//@   requires wfE(e)
+//@   modifies ext_calls, ms
+//@   ensures [C02:ms-only-grows] msGrows(old(ms), ms)
+//@   ensures [C02:error-returns-nil] (err == nil) == (result != nil)
+//@   ensures [C02,C14:backed] err == nil ==> result.secret != nil && ms[ikidOf(e.partition)][result.created]
+
+//@ func (*envelopeEncryption).loadLatestOrCreateIntermediateKey
+//@   facet C02, C14
+//@   requires wfE(e)
+//@   modifies ext_calls, ms
+//@   ensures [C02:ms-only-grows] msGrows(old(ms), ms)
+//@   ensures [C02:error-returns-nil] (err == nil) == (result != nil)
+//@   ensures [C02,C14:backed] err == nil ==> result.secret != nil && (id == ikidOf(e.partition) ==> ms[id][result.created])
+
+//@ func (*envelopeEncryption).EncryptPayload$1
+//@   facet C02, C14
+//@   implements keyLoader
+//@   attr loaderFor(id string) = id == ikidOf(e.partition)
+//@   requires wfE(e)
+
+//@ func (*envelopeEncryption).DecryptDataRowRecord$1
+//@   facet C02, C14
+//@   implements keyLoader
+//@   attr loaderFor(id string) = true
+//@   requires wfE(e)
+
+//@ func (*envelopeEncryption).EncryptPayload
+//@   facet C02, C14
+//@   opt no-frame
+//@   requires wfE(e)
+//@   ensures [C02:error-returns-nil] (err == nil) == (result != nil)
+//@   ensures [C02,C14:record-well-formed] err == nil ==> result.Key != nil && result.Key.ParentKeyMeta != nil && result.Key.ParentKeyMeta.ID == ikidOf(e.partition)
+//@   ensures [C02,C14:record-names-persisted-ik] err == nil ==> ms[ikidOf(e.partition)][result.Key.ParentKeyMeta.Created]
